@@ -222,6 +222,14 @@ package httpgrpc
 
 // ---- clientStream (client.go) ----
 //
+// NewStream sets a finalizer on the wrapper it returns that cancels the stream's
+// context. A finalizer may run as soon as its object is unreachable, and a method's
+// receiver is unreachable once its last use has been evaluated, even while the method
+// is blocked in a callee: the operations that must not be cancelled behind the
+// caller's back have to keep the wrapper reachable until they return.
+//@ type clientStreamWrapper
+//@   kept_alive_during[C01,C02,C04,C05] RecvMsg, SendMsg, Header, CloseSend
+//
 //@ type clientStream
 //@   guarded_by rMu : done, rErr
 //@   guarded_by wMu : wErr
